@@ -15,6 +15,7 @@ import (
 	"runtime"
 	"strconv"
 	"strings"
+	"syscall"
 	"time"
 
 	"github.com/prometheus/prometheus/model/histogram"
@@ -479,48 +480,90 @@ type worker struct {
 	out *bufio.Reader
 }
 
-var theWorker = &worker{}
+// pool of started children: process start-up is slow on a loaded machine, so replacements for
+// children that had to be killed are started in the background.
+type workerPool struct {
+	cur    *worker
+	spares chan *worker
+}
 
-func (w *worker) stop() {
-	if w.cmd != nil {
-		w.in.Close()
-		w.cmd.Process.Kill()
-		w.cmd.Wait()
-		w.cmd = nil
+var theWorker = &workerPool{}
+
+func startWorker() *worker {
+	cmd := exec.Command(os.Args[0])
+	cmd.Env = append(os.Environ(), workerEnv+"=1")
+	in, err1 := cmd.StdinPipe()
+	out, err2 := cmd.StdoutPipe()
+	if err1 != nil || err2 != nil || cmd.Start() != nil {
+		fmt.Fprintln(os.Stderr, "cannot start watchdog child")
+		os.Exit(3)
+	}
+	return &worker{cmd, in, bufio.NewReaderSize(out, 1<<20)}
+}
+
+func (w *worker) kill() {
+	w.in.Close()
+	w.cmd.Process.Kill()
+	w.cmd.Wait()
+}
+
+func (p *workerPool) stop() {
+	if p.spares == nil {
+		return
+	}
+	if p.cur != nil {
+		p.cur.kill()
+		p.cur = nil
+	}
+	for {
+		select {
+		case w := <-p.spares:
+			w.kill()
+		default:
+			return
+		}
 	}
 }
 
-func (w *worker) call(kind, hx string) string {
-	for attempt := 0; attempt < 2; attempt++ {
-		if w.cmd == nil {
-			cmd := exec.Command(os.Args[0])
-			cmd.Env = append(os.Environ(), workerEnv+"=1")
-			in, err1 := cmd.StdinPipe()
-			out, err2 := cmd.StdoutPipe()
-			if err1 != nil || err2 != nil || cmd.Start() != nil {
-				fmt.Fprintln(os.Stderr, "cannot start watchdog child")
-				os.Exit(3)
+func (p *workerPool) call(kind, hx string) string {
+	if p.spares == nil {
+		p.spares = make(chan *worker, 3)
+		go func() {
+			for {
+				p.spares <- startWorker()
 			}
-			w.cmd, w.in, w.out = cmd, in, bufio.NewReaderSize(out, 1<<20)
-		}
-		fmt.Fprintf(w.in, "%s %s\n", kind, hx)
-		line, err := w.out.ReadString('\n')
-		line = strings.TrimSuffix(line, "\n")
-		if err != nil || line == "" {
-			w.stop() // the child died (fatal out-of-memory)
-			return "oom"
-		}
-		if line == "hang" || line == "oom" {
-			w.stop()
-		}
-		return line
+		}()
 	}
-	return "hang"
+	if p.cur == nil {
+		p.cur = <-p.spares
+	}
+	w := p.cur
+	fmt.Fprintf(w.in, "%s %s\n", kind, hx)
+	line, err := w.out.ReadString('\n')
+	line = strings.TrimSuffix(line, "\n")
+	if err != nil || line == "" {
+		line = "oom" // the child died (fatal out-of-memory)
+	}
+	if line == "hang" || line == "oom" {
+		p.cur = nil
+		go w.kill()
+	}
+	return line
 }
 
 // workerMain: one `kind hex` request per line; answers the decoder's canonical output, or `hang` / `oom`
-// (and exits) when the decoder does not return within the budget / grows the heap beyond 2 GiB.
+// (and exits) when the decoder does not return within the budget / needs more than ~320 MiB.
 func workerMain() {
+	// Cap the address space a little above what the runtime has reserved so far: a huge `make` then fails
+	// at once (fatal "out of memory", the parent sees EOF) instead of zeroing gigabytes first.
+	if b, err := os.ReadFile("/proc/self/statm"); err == nil {
+		if f := strings.Fields(string(b)); len(f) > 0 {
+			if pages, err := strconv.ParseUint(f[0], 10, 64); err == nil {
+				lim := pages*uint64(os.Getpagesize()) + 768<<20
+				syscall.Setrlimit(syscall.RLIMIT_AS, &syscall.Rlimit{Cur: lim, Max: lim})
+			}
+		}
+	}
 	in := bufio.NewReaderSize(os.Stdin, 1<<20)
 	out := bufio.NewWriter(os.Stdout)
 	for {
@@ -548,7 +591,7 @@ func workerMain() {
 			case <-tick.C:
 				var ms runtime.MemStats
 				runtime.ReadMemStats(&ms)
-				if ms.Sys > 2<<30 {
+				if ms.Sys > 320<<20 {
 					fmt.Fprintln(out, "oom")
 					out.Flush()
 					os.Exit(0)
